@@ -636,7 +636,7 @@ theorem repCode12_laws : RSLaws repCode12 1 2 where
     split at h
     · simp [present, List.countP_cons]
     · simp [present, List.countP_cons]
-    · simp [present, List.countP_cons]
+    · simp [present]
     · cases h
 
 end Juno.C19
